@@ -27,7 +27,8 @@ pub enum Term {
     /// with_finish(k), wrap_iter / progress_with over n items consumed to the end
     IterExhaust(u8, u8, bool),
     /// with_finish(k), n items consumed from the back (mode 0: `.rev()`, 1: next_back() until None,
-    /// 2: alternating next()/next_back() until both are exhausted)
+    /// 2: alternating next()/next_back() until both are exhausted) or by internal iteration
+    /// (3: for_each, 4: count, 5: last, 6: sum)
     IterExhaustBack(u8, u8, u8),
 }
 
@@ -218,7 +219,19 @@ fn run_single(c: &SingleCase) -> CaseResult {
             let items: Vec<u8> = (0..*n).collect();
             let mut it = pb.wrap_iter(items.clone().into_iter());
             let mut got = vec![];
-            match mode % 3 {
+            match mode % 7 {
+                3 => it.for_each(|x| got.push(x)),
+                4 => got.resize(it.count(), 0),
+                5 => {
+                    let last = it.last();
+                    assert_eq!(last, items.last().copied());
+                    got = items.clone();
+                }
+                6 => {
+                    let sum: u32 = it.map(|x| x as u32).sum();
+                    assert_eq!(sum, items.iter().map(|x| *x as u32).sum::<u32>());
+                    got = items.clone();
+                }
                 0 => got.extend(it.rev()),
                 1 => {
                     while let Some(x) = it.next_back() {
@@ -325,6 +338,7 @@ fn run_single(c: &SingleCase) -> CaseResult {
         Term::FinishUsingStyle(_) => "finish_using_style",
         Term::DropWith(_) => "drop_last_handle",
         Term::IterExhaust(..) => "iterator_exhausted",
+        Term::IterExhaustBack(_, _, m) if m % 7 >= 3 => "iterator_exhausted_by_internal_iteration",
         Term::IterExhaustBack(..) => "iterator_exhausted_from_the_back",
     });
     v.label_if(k_of(&c.term) == 2, "clearing_variant");
@@ -342,7 +356,7 @@ fn single_strategy(tier: Tier) -> BoxedStrategy<SingleCase> {
         (0u8..5).prop_map(Term::FinishUsingStyle),
         (0u8..5).prop_map(Term::DropWith),
         (0u8..5, 0u8..6, any::<bool>()).prop_map(|(k, n, w)| Term::IterExhaust(k, n, w)),
-        (0u8..5, 0u8..6, 0u8..3).prop_map(|(k, n, m)| Term::IterExhaustBack(k, n, m)),
+        (0u8..5, 0u8..6, 0u8..7).prop_map(|(k, n, m)| Term::IterExhaustBack(k, n, m)),
     ];
     (3u8..=10, 6u8..=40)
         .prop_flat_map(move |(rows, cols)| {
@@ -488,7 +502,7 @@ pub fn property() -> Property {
                 cases: |t| t.pick(5_000, 1_000_000),
                 run: run_single,
                 signature: no_signature,
-                essential: &["limiter_exhausted_at_terminator", "limiter_not_exhausted", "explicit_call", "finish_using_style", "drop_last_handle", "iterator_exhausted", "iterator_exhausted_from_the_back", "terminator_on_already_finished_bar", "clearing_variant", "second_completion_after_reset"],
+                essential: &["limiter_exhausted_at_terminator", "limiter_not_exhausted", "explicit_call", "finish_using_style", "drop_last_handle", "iterator_exhausted", "iterator_exhausted_from_the_back", "iterator_exhausted_by_internal_iteration", "terminator_on_already_finished_bar", "clearing_variant", "second_completion_after_reset"],
                 workers: w,
                 decode: None,
             }),
